@@ -1079,6 +1079,85 @@ func (x *extractor) factsProto() {
 			}
 		}
 	}
+	// C11: order of the handshake checks, lock span of the already-connected test + registration
+	checks, post, doneExit := "unknown", "unknown", "unknown"
+	if fd := x.fn(netceptorGo, "Netceptor", "runProtocol"); fd != nil {
+		type mark struct {
+			pos  token.Pos
+			name string
+		}
+		var marks []mark
+		var posts []string
+		ast.Inspect(fd, func(n ast.Node) bool {
+			switch v := n.(type) {
+			case *ast.IfStmt:
+				c := strings.ReplaceAll(x.str(v.Cond), " ", "")
+				body := x.str(v.Body)
+				rej := strings.Contains(body, "sendAndLogConnectionRejection")
+				rem := strings.Contains(body, "s.removeConnection(remoteNodeID)")
+				switch {
+				case c == `remoteNodeID==""` && rej:
+					marks = append(marks, mark{v.Pos(), "empty-id"})
+				case c == "remoteNodeID==s.nodeID" && rej:
+					marks = append(marks, mark{v.Pos(), "own-id"})
+				case c == "!remoteNodeAccepted" && rej && strings.Contains(body, "allowed peers"):
+					marks = append(marks, mark{v.Pos(), "allowed-peers"})
+				case c == "!remoteNodeAccepted" && rej && strings.Contains(body, "already connected") && strings.Contains(body, "s.connLock.Unlock()"):
+					marks = append(marks, mark{v.Pos(), "already-connected"})
+				case c == "ri.ForwardingNode!=remoteNodeID" && rej && rem:
+					posts = append(posts, x.str(v.Cond)+":remove,reject")
+				case c == "ri.NodeID==remoteNodeID":
+					posts = append(posts, x.str(v.Cond))
+				case c == "remoteEstablished" && rej && rem:
+					posts = append(posts, "!ok:remoteEstablished:remove,reject")
+				case c == "ok&&remoteCost!=connectionCost" && rej && rem:
+					posts = append(posts, "remoteCost != connectionCost:remove,reject")
+				}
+			case *ast.AssignStmt:
+				sx := x.str(v)
+				if sx == "remoteNodeCost, ok := bi.nodeCost[remoteNodeID]" {
+					marks = append(marks, mark{v.Pos(), "node-cost"})
+				}
+				if sx == "s.connections[remoteNodeID] = ci" {
+					marks = append(marks, mark{v.Pos(), "register"})
+				}
+			case *ast.ExprStmt:
+				sx := x.str(v)
+				if sx == "s.connLock.Lock()" {
+					marks = append(marks, mark{v.Pos(), "lock"})
+				}
+				if sx == "s.connLock.Unlock()" {
+					// the unlock that follows the registration at the same nesting level
+					marks = append(marks, mark{v.Pos(), "unlock"})
+				}
+			case *ast.CommClause:
+				if v.Comm != nil && x.str(v.Comm) == "<-ci.Context.Done()" && len(v.Body) == 2 && strings.Contains(x.str(v.Body[1]), "return nil") {
+					// the outermost one is the last in source order
+					doneExit = x.str(v.Body[0]) + ";" + x.str(v.Body[1])
+				}
+			}
+			return true
+		})
+		sort.Slice(marks, func(i, j int) bool { return marks[i].pos < marks[j].pos })
+		var ms []string
+		for _, m := range marks {
+			// keep only the last unlock (after register); the one inside the rejection branch belongs to it
+			ms = append(ms, m.name)
+		}
+		// drop the unlock inside the already-connected branch (it precedes "register")
+		var out []string
+		for i, m := range ms {
+			if m == "unlock" && i+1 < len(ms) && ms[i+1] == "register" {
+				continue
+			}
+			out = append(out, m)
+		}
+		checks = strings.Join(out, ",")
+		post = strings.Join(posts, ";")
+	}
+	x.set("adm_checks", checks)
+	x.set("adm_post_checks", post)
+	x.set("adm_done_exit", doneExit)
 	x.set("proto_empty_guard", emptyGuard)
 	x.set("proto_ad_nil_guard", adNil)
 	x.set("proto_ping_guard", pingGuard)
